@@ -1226,11 +1226,11 @@ def in_model_domain(spec, ops):
 def run(ctx):
     rng = ctx.rng
     _BASE["thorough"] = bool(ctx.thorough)
-    ncases = ctx.pick(20, 110)
+    ncases = ctx.pick(22, 110)
     plan = []
     # fixed corpus first: the design-round probes and the excluded points
     plan.append(({"rings": 9, "holes": [], "edges0": False, "vseed": 1}, ["convert", "restore"]))
-    plan.append(({"rings": 7, "holes": [], "edges0": False, "vseed": 12},
+    plan.append(({"rings": 5, "holes": [], "edges0": False, "vseed": 12},
                  ["addEdge", "solveScale", "removeEdge", "addEdge", "solveScale", "convert", "restore"]))
     plan.append(({"rings": 4, "holes": [], "edges0": False, "vseed": 21, "pins": "mixed"},
                  ["convert", "restore", "addEdge", "removeEdge", "addEdge", "convert", "restore"]))
@@ -1242,18 +1242,18 @@ def run(ctx):
     # sources rotated during fuel management, per-corner / per-edge data on a random subset of blocks
     plan.append(({"rings": 5, "holes": [[1, 1]], "edges0": False, "vseed": 43, "prerot": "some", "bnd": "many", "arr": "array",
                   "pins": "mixed"}, ["convert", "restore", "addEdge", "convert", "restore"]))
-    plan.append(({"rings": 6, "holes": [], "edges0": False, "vseed": 11, "track": True, "pins": "partial"},
+    plan.append(({"rings": 5, "holes": [], "edges0": False, "vseed": 11, "track": True, "pins": "partial"},
                  ["convert", "restore", "addEdge", "removeEdge", "convert", "restore", "addEdge", "removeEdge"]))
     plan.append(({"rings": 5, "holes": [], "edges0": False, "vseed": 7, "arr": "aliased"},
                  ["addEdge", "removeEdge", "convert", "restore", "addEdge", "removeEdge"]))
-    plan.append(({"rings": 9, "holes": [], "edges0": False, "vseed": 2}, ["addEdge", "convert", "restore"]))      # F10
+    plan.append(({"rings": 7, "holes": [], "edges0": False, "vseed": 2, "prerot": "some"}, ["addEdge", "convert", "restore"]))      # F10
     plan.append(({"rings": 6, "holes": [[2, -1]], "edges0": False, "vseed": 3},
                  ["addEdge", "removeEdge", "convert", "addEdge", "restore", "addEdge", "removeEdge"]))
     # nothing on the 0-degree line, but cells with j < 0 exist (the centre is not the first assembly convert visits):
     # addEdge adds nothing and clears the flags, convert must still scale the centre (copies re-flag before it)
     plan.append(({"rings": 5, "holes": [[2, -1], [4, -2]], "edges0": False, "vseed": 13},
                  ["addEdge", "convert", "restore"]))
-    plan.append(({"rings": 7, "holes": [[2, -1], [4, -2], [6, -3], [1, 1]], "edges0": False, "vseed": 14, "track": True},
+    plan.append(({"rings": 6, "holes": [[2, -1], [4, -2], [1, 1]], "edges0": False, "vseed": 14, "track": True},
                  ["addEdge", "convert", "restore", "addEdge", "convert"]))
     # nested changers: outer.convert, inner.convert (no-op: already full), inner.restore (nothing to undo), outer.restore
     plan.append(({"rings": 4, "holes": [], "edges0": False, "vseed": 15},
